@@ -46,9 +46,7 @@ get_address = Fn(FI, "get_address", impl="<'iter, 'ast, 'decls> ResolverContext<
                      C("addr_formula", "res is Ok && res->Ok_0 is Some ==> res->Ok_0->0.val() == address_of(bank_of(defs, self.bank_ref), self.bank_data.cur_position as int)", ["C01", "C06"]),
                      C("misaligned_is_none", "bank_of(defs, self.bank_ref).addr_unit > 0 && !can_guess && self.bank_data.cur_position % bank_of(defs, self.bank_ref).addr_unit != 0 ==> res == Ok::<Option<util::BigInt>, ()>(None)", ["C06"]),
                      C("aligned_is_some", "res is Ok && res->Ok_0 is None ==> !can_guess && self.bank_data.cur_position % bank_of(defs, self.bank_ref).addr_unit != 0", ["C06"]),
-                 ],
-                 inserts=[Insert("        let excess_bits = cur_position % addr_unit;", "        proof { assume(addr_unit > 0); }\n", where="before", finding="D16",
-                                 why="finding guard: `#bits 0` is accepted, addr_unit == 0 (known finding D16)")])
+                 ])
 
 eval_address = Fn(FI, "eval_address", impl="<'iter, 'ast, 'decls> ResolverContext<'iter, 'ast, 'decls>", slot="resolver", ret="res",
                   key="ResolverContext::eval_address", props=["C01", "C06", "C03", "C19"],
@@ -56,9 +54,7 @@ eval_address = Fn(FI, "eval_address", impl="<'iter, 'ast, 'decls> ResolverContex
                   ensures=LOUD + [
                       C("addr_formula", "res is Ok ==> res->Ok_0.val() == address_of(bank_of(defs, self.bank_ref), self.bank_data.cur_position as int)", ["C01", "C06"]),
                       C("misaligned_is_error", "bank_of(defs, self.bank_ref).addr_unit > 0 && !can_guess && self.bank_data.cur_position % bank_of(defs, self.bank_ref).addr_unit != 0 ==> res is Err", ["C06"]),
-                  ],
-                  inserts=[Insert("        let excess_bits = cur_position % addr_unit;", "        proof { assume(addr_unit > 0); }\n", where="before", finding="D16",
-                                  why="finding guard: `#bits 0` is accepted, addr_unit == 0 (known finding D16)")])
+                  ])
 
 R7 = Rewrite(r"println!\((?:[^()]|\((?:[^()]|\([^()]*\))*\))*\);", "", regex=True, rule="R7", why="debug printing statement deleted", count=1)
 
@@ -244,6 +240,111 @@ resolve_once = Fn(
     ])},
 )
 
+PREV = "old(self).ast.nodes@[old(self).index_prev->0 as int]"
+CUR = "final(self).bank_data@[old(self).bank_ref.0 as int].cur_position"
+OLDP = "old(self).bank_data@[old(self).bank_ref.0 as int].cur_position"
+BANK = "bank_of(defs, old(self).bank_ref)"
+def G(site):
+    return Insert(site, "proof { assume(%s); }\n                " , where="before", finding="D9a")
+
+advance_address = Fn(
+    FI, "advance_address", impl=ITER_IMPL, slot="resolver", ret="res", key="ResolveIterator::advance_address",
+    props=["C01", "C06", "C03", "C19"],
+    requires=[
+        C("cursor_in_range", "old(self).index_prev is Some ==> old(self).index_prev->0 < old(self).ast.nodes@.len()", ["C03"]),
+        C("data_cursor_in_range", "old(self).index_prev is Some && old(self).subindex_prev is Some ==> (match %s { asm::AstAny::DirectiveData(d) => old(self).subindex_prev->0 < d.item_refs@.len(), _ => true })" % PREV, ["C03"]),
+        C("node_defined", "old(self).index_prev is Some ==> node_ok(%s, defs)" % PREV, ["C03"]),
+        C("bank_defined", "bank_ok(defs, old(self).bank_ref) && old(self).bank_ref.0 < old(self).bank_data@.len()", ["C03"]),
+    ],
+    ensures=LOUD + [
+        C("other_banks_untouched", "final(self).bank_data@.len() == old(self).bank_data@.len() && forall|k: int| 0 <= k < old(self).bank_data@.len() && k != old(self).bank_ref.0 ==> final(self).bank_data@[k] == old(self).bank_data@[k]", ["C06", "C01"]),
+        C("cursor_untouched", "final(self).index == old(self).index && final(self).subindex == old(self).subindex && final(self).index_prev == old(self).index_prev && final(self).bank_ref == old(self).bank_ref && final(self).is_last_iteration == old(self).is_last_iteration", ["C01"]),
+        C("no_previous_item_no_move", "res is Ok && (old(self).index_prev is None || old(self).subindex_prev is None) ==> %s == %s" % (CUR, OLDP), ["C01"]),
+        C("position_after_item",
+          "res is Ok && old(self).index_prev is Some && old(self).subindex_prev is Some ==> (match %s {"
+          " asm::AstAny::Instruction(n) => %s == %s + size_or_zero(defs.instructions.defs@[(n.item_ref->0).0 as int]->0.encoding),"
+          " asm::AstAny::DirectiveData(n) => %s == %s + size_or_zero(defs.data_elems.defs@[n.item_refs@[old(self).subindex_prev->0 as int].0 as int]->0.encoding),"
+          " asm::AstAny::DirectiveRes(n) => %s == %s + defs.res_directives.defs@[(n.item_ref->0).0 as int]->0.reserve_size,"
+          " asm::AstAny::DirectiveAlign(n) => ({ let k = defs.align_directives.defs@[(n.item_ref->0).0 as int]->0.align_size; let a = %s.addr_start.val() * %s.addr_unit + %s;"
+          "   if k == 0 { %s == %s } else { a >= 0 ==> %s == %s + until_aligned(a, k as int) } }),"
+          " asm::AstAny::DirectiveAddr(n) => ({ let t = defs.addr_directives.defs@[(n.item_ref->0).0 as int]->0.address.val(); let d = t - %s.addr_start.val();"
+          "   %s == (if 0 <= d <= usize::MAX { d * %s.addr_unit } else { 0 }) }),"
+          " _ => %s == %s })" % (PREV, CUR, OLDP, CUR, OLDP, CUR, OLDP, BANK, BANK, OLDP, CUR, OLDP, CUR, OLDP, BANK, CUR, BANK, CUR, OLDP), ["C01", "C06"]),
+    ],
+    rewrites=[
+        Rewrite("&addr.address.checked_sub(", "addr.address.checked_sub(", rule="R3", why="`&usize * usize`: the reference on the left operand of `*` is dropped (operator on a reference operand; same value)"),
+    ],
+    inserts=[
+        Insert("                cur_bank_data.cur_position += {\n                    match instr.encoding.size", "proof { assume(cur_bank_data.cur_position + size_or_zero(instr.encoding) <= usize::MAX); }\n                ", where="before", finding="D9a", why="finding guard: bank position overflows usize (known finding D9a)"),
+        Insert("                cur_bank_data.cur_position += {\n                    match data_elem.encoding.size", "proof { assume(cur_bank_data.cur_position + size_or_zero(data_elem.encoding) <= usize::MAX); }\n                ", where="before", finding="D9a", why="finding guard D9a"),
+        Insert("                cur_bank_data.cur_position += res.reserve_size;", "proof { assume(cur_bank_data.cur_position + res.reserve_size <= usize::MAX); }\n                ", where="before", finding="D9a", why="finding guard D9a"),
+        Insert("                cur_bank_data.cur_position += bits_until_alignment(", "proof { assume(cur_bank_data.cur_position + align.align_size <= usize::MAX); }\n                ", where="before", finding="D9a", why="finding guard D9a"),
+        Insert("                let new_position = {", "proof { assume((addr.address.val() - bank.addr_start.val()) * bank.addr_unit <= usize::MAX); }\n                ", where="before", finding="D9a", why="finding guard D9a: (address - addr_start) * addr_unit overflows usize"),
+    ],
+)
+
+# ---- expr::Value accessors that are plain matches: verified here (not assumed)
+VLOUD = LOUD
+expect_usize = Fn(FE, "expect_usize", impl="Value", slot="expr", ret="res", key="Value::expect_usize", props=["C19", "C03"],
+                  ensures=VLOUD + [C("exact", "res is Ok ==> self is Integer && res->Ok_0 as int == self->Integer_0.val()", ["C19"]),
+                                   C("total_on_usize_range", "self is Integer && 0 <= self->Integer_0.val() <= usize::MAX ==> res is Ok", ["C19"])])
+expect_nonzero_usize = Fn(FE, "expect_nonzero_usize", impl="Value", slot="expr", ret="res", key="Value::expect_nonzero_usize", props=["C19", "C03"],
+                  ensures=VLOUD + [C("exact_and_positive", "res is Ok ==> self is Integer && res->Ok_0 as int == self->Integer_0.val() && res->Ok_0 > 0", ["C19"])])
+expect_bigint_v = Fn(FE, "expect_bigint", impl="Value", slot="expr", ret="res", key="Value::expect_bigint", props=["C03"],
+                   ensures=[
+                       C("ok_iff_integer", "res is Ok <==> self is Integer", ["C03"]),
+                       C("ok_value", "res is Ok ==> *res->Ok_0 == self->Integer_0", ["C03"]),
+                   ] + VLOUD)
+expect_error_or_usize_v = Fn(FE, "expect_error_or_usize", impl="Value", slot="expr", ret="res", key="Value::expect_error_or_usize", props=["C19", "C03"],
+                   ensures=VLOUD + [C("shape", "res is Ok ==> res->Ok_0 == self && (self is Unknown || self is FailedConstraint || (self is Integer && 0 <= self->Integer_0.val() <= usize::MAX))", ["C19"])])
+value_verified = [expect_usize, expect_nonzero_usize, expect_bigint_v, expect_error_or_usize_v]
+
+# ---- asm::defs::bankdef::define: establishes the data invariant "every defined bank has addr_unit > 0"
+FB = "src/asm/defs/bankdef.rs"
+FRESH = ("forall|j: int| 0 <= j < ast.nodes@.len() ==> (match #[trigger] ast.nodes@[j] { asm::AstAny::DirectiveBankdef(n) =>"
+         " n.item_ref is Some && (n.item_ref->0).0 >= 1"
+         " && (forall|j2: int| 0 <= j2 < ast.nodes@.len() && j2 != j ==> (match #[trigger] ast.nodes@[j2] { asm::AstAny::DirectiveBankdef(n2) => n2.item_ref != n.item_ref, _ => true })), _ => true })")
+eval_certain_stub = Fn(FEV, "eval_certain", slot="resolver", mode="stub", ret="res", ensures=LOUD)
+deflist_define = Fn("src/asm/defs/mod.rs", "define", impl="<T> DefList<T>", impl_header="<T> DefList<T>", slot="asm", ret=None, key="DefList::define", props=["C03"],
+    requires=[C("slot_free", "item_ref.0 >= old(self).defs@.len() || old(self).defs@[item_ref.0 as int] is None", ["C03"])],
+    ensures=[
+        C("defined", "item_ref.0 < final(self).defs@.len() && final(self).defs@[item_ref.0 as int] == Some(item)", ["C03"]),
+        C("len", "final(self).defs@.len() == (if item_ref.0 < old(self).defs@.len() { old(self).defs@.len() } else { (item_ref.0 + 1) as nat })", ["C03"]),
+        C("others_kept", "forall|k: int| 0 <= k < final(self).defs@.len() && k != item_ref.0 ==> #[trigger] final(self).defs@[k] == (if k < old(self).defs@.len() { old(self).defs@[k] } else { None })", ["C03"]),
+    ],
+    loops={1: Loop(invariant=[
+        C("prefix_kept", "self.defs@.len() >= old(self).defs@.len() && forall|k: int| 0 <= k < self.defs@.len() ==> #[trigger] self.defs@[k] == (if k < old(self).defs@.len() { old(self).defs@[k] } else { None })"),
+        C("bound", "self.defs@.len() <= item_ref.0 + 1 || self.defs@.len() == old(self).defs@.len()"),
+    ], decreases="item_ref.0 + 1 - self.defs@.len()")},
+    rewrites=[Rewrite("        self.defs[item_ref.0] = Some(item);", "        self.defs.set(item_ref.0, Some(item));", rule="R14",
+                      why="Verus has no IndexMut assignment on Vec: `v[i] = x` is written as vstd's `v.set(i, x)` (same effect; index bound becomes an obligation)")],
+)
+
+bankdef_define = Fn(
+    FB, "define", slot="asm", ret="res", key="bankdef::define", props=["C01", "C06", "C19", "C03"],
+    requires=[
+        C("no_banks_yet", "old(defs).bankdefs.defs@.len() == 0", ["C03"]),
+        C("bankdef_refs_fresh", FRESH, ["C03"]),
+    ],
+    ensures=LOUD + [
+        C("address_unit_positive", "res is Ok ==> banks_wf(final(defs))", ["C01", "C06", "C19"]),
+    ],
+    rewrites=[
+        Rewrite("for any_node in &ast.nodes", "for any_node in it: &ast.nodes", rule="R5", why="ghost iterator named"),
+        Rewrite(".map(|s| s * addr_unit);", ".map(|s: usize| -> (r: usize) requires s * addr_unit <= usize::MAX ensures r == s * addr_unit { s * addr_unit });", rule="R4", why="closure header; body wrapped in braces"),
+    ],
+    loops={1: Loop(invariant=[
+        C("banks_wf", "banks_wf(defs)"),
+        C("clean", "report.msgs() == old(report).msgs() && report.errors() == old(report).errors() && report.parents() == old(report).parents()"),
+        C("fresh", FRESH),
+        C("only_earlier_defined", "forall|k: int| 1 <= k < defs.bankdefs.defs@.len() && #[trigger] defs.bankdefs.defs@[k] is Some ==> exists|j: int| 0 <= j < it.index@ && (match #[trigger] ast.nodes@[j] { asm::AstAny::DirectiveBankdef(n) => (n.item_ref->0).0 == k, _ => false })"),
+    ])},
+    inserts=[
+        Insert("            let size = addr_size", "            proof { assume(addr_size is Some ==> addr_size->0 * addr_unit <= usize::MAX); }\n", where="before", finding="D9d",
+               why="finding guard: bank size in addresses times addr_unit overflows usize (FIXME in the source; known finding D9d)"),
+    ],
+)
+
 expr_value_types = [
     Type(FE, "enum", "Value", slot="expr"),
     Type(FE, "struct", "ExprString", slot="expr"),
@@ -262,17 +363,19 @@ opts_types = [
     Type("src/asm/mod.rs", "struct", "DriverSymbolDef", slot="asm"),
 ]
 
-bigint_stubs = cb.items("stub", "util", only=["new", "checked_add", "checked_sub", "checked_mul", "checked_mod", "checked_into", "maybe_into"], with_cmp=True)
+bigint_stubs = cb.items("stub", "util", only=["new", "checked_add", "checked_sub", "checked_mul", "checked_mod", "checked_into", "checked_into_nonzero_usize", "maybe_into"], with_cmp=True)
+
 
 COMMON = (report_fns("stub", "diagn") + bigint_stubs + itemref_items("util") + expr_value_types +
           ast_types("asm") + defs_types("asm") + opts_types + deflist_fns("verify", "asm") + resolver_types)
 
+value_stubs2 = [v for v in value_stubs if v.name != "expect_error_or_usize"]
 UNIT = Unit(
     "U-resolver", "u_resolver/skeleton.rs",
     items=COMMON + [
-              bits_until_alignment, can_guess, get_output_position, get_address, eval_address,
+              bits_until_alignment, can_guess, get_output_position, get_address, eval_address, advance_address,
               merge, iter_new, iter_next, resolve_constant_stub, resolve_instruction_stub, resolve_data_element_stub, resolve_once,
-              resolve_label, resolve_res, resolve_align, resolve_addr, resolve_assert, eval_stub] + value_stubs,
+              resolve_label, resolve_res, resolve_align, resolve_addr, resolve_assert, eval_stub, eval_certain_stub, deflist_define, bankdef_define] + value_stubs2 + value_verified,
     serves=["C01", "C02", "C03", "C06", "C09", "C19"],
     description="asm::resolver: address arithmetic (iter.rs), one resolution pass (resolve_once) and the per-item resolvers for labels, #res, #align, #addr, #assert",
 )
